@@ -64,7 +64,7 @@ def check_value(x, *, expect_reject: bool) -> list[dict]:
         try:
             text = ser(x)
         except Exception as e:  # noqa: BLE001 - rejection is any exception from serialize
-            if not expect_reject:
+            if not expect_reject and not _platform_cannot_represent(x):
                 out.append(
                     {"kind": "accepted_grammar_rejected", "site": _root_cause(e),
                      "detail": f"value of the documented grammar was rejected: {e!r}"}
@@ -88,6 +88,25 @@ def check_value(x, *, expect_reject: bool) -> list[dict]:
                  "detail": f"[{name}] in={x!r} out={y!r} text={text[:200]!r}"}
             )
     return out
+
+
+def _platform_cannot_represent(v) -> bool:
+    """datetimes whose UTC offset is a non-zero fraction of a second: isoformat()/fromisoformat() cannot carry them
+    (CPython drops the offset), so the only correct behaviours are rejection or exact restoration."""
+    import datetime as _dt
+
+    from aws_durable_execution_sdk_python.concurrency.models import BatchResult
+
+    if isinstance(v, _dt.datetime):
+        off = v.utcoffset()
+        return off is not None and abs(off) < _dt.timedelta(seconds=1) and off != _dt.timedelta(0)
+    if isinstance(v, (list, tuple)):
+        return any(_platform_cannot_represent(x) for x in v)
+    if isinstance(v, dict):
+        return any(_platform_cannot_represent(x) for x in v.values())
+    if isinstance(v, BatchResult):
+        return any(_platform_cannot_represent(i.result) for i in v.all)
+    return False
 
 
 def _root_cause(e: BaseException) -> str:
